@@ -10,7 +10,7 @@ use proptest::prelude::*;
 use serde_json::Value;
 use unic_locale::Locale;
 
-pub const RULE: &str = "Domain: histories of public API calls (assign language/script/region from parsed text, set/clear/has variants, set/remove/clear/get keywords, set/remove/has/clear attributes, set/clear tlang, set/remove/clear/get tfields, add/remove/has/clear private tags, maximize, minimize) with valid, colliding, boundary and invalid arguments, starting from Locale::default() or from a parsed well-formed locale: every sequence of length <= 3 (quick) / <= 4 (thorough) over a fixed 30-operation alphabet from two start states (exhaustive), and proptest-generated sequences of length 0-40 from random starts. After every step the call's result, every getter, is_empty of each list and of the map, has_*, to_string() == canon(model), the strict canonical recogniser, and parse(to_string()) == value are compared with a set/map model; an Err step must leave the value unchanged. Non-trivial = the history holds >= 2 successful insertions into one collection followed by a removal or membership query on it. Exhaustive sequences distinct by construction; random ones counted through a hash set.";
+pub const RULE: &str = "Domain: histories of public API calls (assign language/script/region from parsed text, set/clear/has variants, set/remove/clear/get keywords, set/remove/has/clear attributes, set/clear tlang, set/remove/clear/get tfields, add/remove/has/clear private tags, maximize, minimize) with valid, colliding, boundary and invalid arguments, starting from Locale::default() or from a parsed well-formed locale: every sequence of length <= 3 (quick) / <= 4 (thorough) over a fixed 30-operation alphabet from two start states (exhaustive), proptest-generated sequences of length 0-40 from random starts, focused sequences on one collection, and bulk sequences of 40-160 operations on one collection with generated arguments (collections of several dozen entries; removals and queries name earlier insertions). After every step the call's result, every getter, is_empty of each list and of the map, has_*, to_string() == canon(model), the strict canonical recogniser, and parse(to_string()) == value are compared with a set/map model; an Err step must leave the value unchanged. Non-trivial = the history holds >= 2 successful insertions into one collection followed by a removal or membership query on it. Exhaustive sequences distinct by construction; random ones counted through a hash set.";
 
 #[cfg(feature = "likely")]
 pub struct LikelyRef {
@@ -139,6 +139,7 @@ pub fn check_history(lr: &LikelyRef, start: &[u8], ops_: &[Op], st: &mut Stats, 
     let mut nontrivial = false;
     let mut classes: Vec<&'static str> = vec![];
     let mut had_nonempty_error = false;
+    let mut biggest = 0usize;
     for (i, op) in ops_.iter().enumerate() {
         let before = loc.clone();
         let before_s = loc.to_string();
@@ -272,6 +273,7 @@ pub fn check_history(lr: &LikelyRef, start: &[u8], ops_: &[Op], st: &mut Stats, 
                 return None;
             }
         }
+        biggest = biggest.max(m.attrs.len()).max(m.keywords.len()).max(m.tfields.len()).max(m.private.len()).max(m.id.variants.len());
         // non-triviality bookkeeping
         let col = ops::collection(op) as usize;
         if col > 0 {
@@ -301,6 +303,13 @@ pub fn check_history(lr: &LikelyRef, start: &[u8], ops_: &[Op], st: &mut Stats, 
         st.class("nontrivial-history");
         let h = hash_str(&format!("{}|{:?}", String::from_utf8_lossy(start), ops_));
         st.count(mode, h, case);
+    }
+    if biggest > 64 {
+        classes.push("size: a collection held more than 64 entries");
+    } else if biggest > 32 {
+        classes.push("size: a collection held 33-64 entries");
+    } else if biggest > 16 {
+        classes.push("size: a collection held 17-32 entries");
     }
     classes.sort();
     classes.dedup();
@@ -337,6 +346,83 @@ pub fn s_focused_history() -> impl Strategy<Value = (Vec<u8>, Vec<Op>)> + Sync {
         })
 }
 
+/// bulk histories: 40-160 operations on ONE collection with generated (not pooled) arguments, so
+/// that the collection grows well past 16 / 32 / 64 entries before removals and queries hit it
+/// (binary-search boundaries, small-vector spill-over, "sort only short lists" fast paths).
+/// Removal and query arguments are drawn from the arguments inserted earlier in the same history.
+pub fn s_bulk_history() -> impl Strategy<Value = (Vec<u8>, Vec<Op>)> + Sync {
+    use proptest::sample::Index;
+    let item = (0u8..10, any::<Index>(), gen::s_value(), gen::s_key(), gen::s_tkey(), gen::s_private(), gen::s_variant(), any::<u64>());
+    (0u8..5, prop_oneof![2 => Just(Vec::new()), 1 => Just(FIXED_START.to_vec())], proptest::collection::vec(item, 40..160)).prop_map(|(kind, start, items)| {
+        let mut ops_: Vec<Op> = vec![];
+        let mut seen: Vec<String> = vec![];
+        let mut variants: Vec<String> = vec![];
+        let case = |s: &str, m: u64| -> String { s.chars().enumerate().map(|(i, c)| if (m >> (i % 64)) & 1 == 1 { c.to_ascii_uppercase() } else { c }).collect() };
+        for (what, ix, val, key, tkey, tag, var, mask) in items {
+            let old = if seen.is_empty() { None } else { Some(seen[ix.index(seen.len())].clone()) };
+            let insert = what < 6 || old.is_none();
+            match kind {
+                0 => {
+                    // attributes
+                    if insert {
+                        seen.push(val.clone());
+                        ops_.push(Op::SetAttribute(case(&val, mask)));
+                    } else if what < 8 {
+                        ops_.push(Op::RemoveAttribute(case(&old.unwrap(), mask)));
+                    } else {
+                        ops_.push(Op::HasAttribute(case(&old.unwrap(), mask)));
+                    }
+                }
+                1 => {
+                    if insert {
+                        seen.push(key.clone());
+                        ops_.push(Op::SetKeyword(case(&key, mask), vec![val]));
+                    } else if what < 8 {
+                        ops_.push(Op::RemoveKeyword(case(&old.unwrap(), mask)));
+                    } else {
+                        ops_.push(Op::Keyword(case(&old.unwrap(), mask)));
+                    }
+                }
+                2 => {
+                    if insert {
+                        seen.push(tkey.clone());
+                        ops_.push(Op::SetTfield(case(&tkey, mask), vec![val]));
+                    } else if what < 8 {
+                        ops_.push(Op::RemoveTfield(case(&old.unwrap(), mask)));
+                    } else {
+                        ops_.push(Op::Tfield(case(&old.unwrap(), mask)));
+                    }
+                }
+                3 => {
+                    if insert {
+                        seen.push(tag.clone());
+                        ops_.push(Op::AddTag(case(&tag, mask)));
+                    } else if what < 8 {
+                        ops_.push(Op::RemoveTag(case(&old.unwrap(), mask)));
+                    } else {
+                        ops_.push(Op::HasTag(case(&old.unwrap(), mask)));
+                    }
+                }
+                _ => {
+                    // variants: the list is replaced as a whole, so grow it step by step
+                    if insert {
+                        variants.push(case(&var, mask));
+                        seen.push(var.clone());
+                        ops_.push(Op::SetVariants(variants.clone()));
+                    } else if what < 8 {
+                        let o = old.unwrap();
+                        variants.retain(|v| !v.eq_ignore_ascii_case(&o));
+                        ops_.push(Op::SetVariants(variants.clone()));
+                    } else {
+                        ops_.push(Op::HasVariant(case(&old.unwrap(), mask)));
+                    }
+                }
+            }
+        }
+        (start, ops_)
+    })
+}
+
 pub fn for_each_history(cfg: &Cfg, tag: &str, f: &(dyn Fn(&[u8], &[Op], &mut Stats, Count) + Sync)) -> Stats {
     let mut total = Stats::new();
     let alpha = ops::op_alphabet();
@@ -370,6 +456,10 @@ pub fn for_each_history(cfg: &Cfg, tag: &str, f: &(dyn Fn(&[u8], &[Op], &mut Sta
     let s = run_strategy(&s_focused_history(), cfg.seed, &format!("{tag}-g7-focused"), nf, |(start, ops_), st| f(start, ops_, st, Count::Hash));
     total = total.merge(s);
     total.subspace("G7 focused histories: 2-30 operations on a single collection, random start (proptest)", nf, false);
+    let nb = cfg.pick(6_000, 120_000);
+    let s = run_strategy(&s_bulk_history(), cfg.seed, &format!("{tag}-g7-bulk"), nb, |(start, ops_), st| f(start, ops_, st, Count::Hash));
+    total = total.merge(s);
+    total.subspace("G7 bulk histories: 40-160 operations on one collection with generated arguments, removals / queries of earlier insertions (proptest)", nb, false);
     total
 }
 
